@@ -40,6 +40,9 @@ fixed("C11", "2c14b48", "DecodeChained swallowed any error on the first header b
 fixed("C04", "973b417", "Header.CheckIntegrity built the serialised header but never wrote it into the hash: Sum16() of the fresh hash is 0, so every non-zero stored header CRC was accepted",
       "C04-R3-hash-typestate", "(github.com/tormoder/fit.Header).CheckIntegrity/Sum16#0")
 
+fixed("C16", "cd35c78", "parseDataFields incremented the unknown-field counter for every field of every unknown message (increment not control-dependent on knownMsg)",
+      "C16-R4-counter-guards", "parseDataFields/unknownFields")
+
 json.dump({
     "comment": "Genuine defects of tormoder/fit. status=known: recorded, not repaired (reason in DESIGN.md section 1); the check prints KNOWN-FINDING for exactly that (property, rule, key). status=fixed: repaired by the named fix: commit in /repo; suppresses nothing. This file is never written at run time.",
     "findings": F,
